@@ -11,6 +11,7 @@ dataset with at least one row, any number of groups of any sizes (single-member 
 one or more sensitive feature columns, any positive weights.
 -/
 import FairModel.Lemmas.Fairness
+import FairModel.Model.Derived
 
 namespace C03
 open Fairness Frame Aggregate MetricPool XR
@@ -433,6 +434,104 @@ theorem run_group_method_irrelevant (m : Metric) (meth : Method) (b : Bool) (nsf
     run m .groupMin meth b nsf rows = run m .groupMin .between true nsf rows ∧
     run m .groupMax meth b nsf rows = run m .groupMax .between true nsf rows := by
   constructor <;> simp [run, applyAgg]
+
+/-! ### argument plumbing of `make_derived_metric` (`Model/Derived.lean` over the generated `DerivedSpec`) -/
+
+/-- The constructor succeeds exactly when the metric is callable, does not itself take a reserved
+    transform parameter (`method`), and the transform is one of the four options; it then stores the
+    transform and the sample parameter names (`None` ↦ no sample parameters).  Every way it fails is a
+    ValueError (non-callable metric, a metric that takes `method`, an unknown transform string) — in
+    particular `inspect.signature` (TypeError) is never reached for a non-callable. -/
+theorem derived_make_eq (mi : Derived.MetricInfo) (tr : String) (spn : Option (List String)) :
+    Derived.make mi tr spn =
+      if mi.callable = true ∧ "method" ∉ mi.sigParams ∧ tr ∈ FairnessSpec.transformOptions
+      then .ok ⟨tr, spn.getD []⟩ else .error .valueError := by
+  obtain ⟨c, hn, sp, aa⟩ := mi
+  cases c <;> by_cases hm : "method" ∈ sp <;> by_cases ht : tr ∈ FairnessSpec.transformOptions <;>
+    simp [Derived.make, Derived.runChecks, Derived.checkStep, DerivedSpec.initChecks,
+      FairnessSpec.parametersForTransforms, hm, ht]
+
+theorem derived_make_ok_iff (mi : Derived.MetricInfo) (tr : String) (spn : Option (List String)) :
+    Derived.make mi tr spn = .ok ⟨tr, spn.getD []⟩ ↔
+      (mi.callable = true ∧ "method" ∉ mi.sigParams ∧ tr ∈ FairnessSpec.transformOptions) := by
+  rw [derived_make_eq]
+  split <;> simp_all
+
+theorem derived_make_error_is_valueError (mi : Derived.MetricInfo) (tr : String) (spn : Option (List String))
+    (e : Derived.Out) (h : Derived.make mi tr spn = .error e) : e = .valueError := by
+  rw [derived_make_eq] at h
+  split at h
+  · cases h
+  · injection h with h; exact h.symm
+
+theorem derived_make_fails (mi : Derived.MetricInfo) (tr : String) (spn : Option (List String))
+    (h : mi.callable = false ∨ "method" ∈ mi.sigParams ∨ tr ∉ FairnessSpec.transformOptions) :
+    Derived.make mi tr spn = .error .valueError := by
+  rw [derived_make_eq, if_neg]
+  rintro ⟨h1, h2, h3⟩
+  rcases h with h | h | h
+  · rw [h1] at h; cases h
+  · exact h2 h
+  · exact h h3
+
+/-- Routing of `**other_params`: a name listed in `sample_param_names` is a sample parameter (even
+    `method`); otherwise `method` is a transform parameter; every other name is bound to the metric. -/
+theorem derived_route (spn : List String) (k : String) :
+    Derived.route spn k =
+      if k ∈ spn then "sample" else if k = "method" then "transform" else "bound" := by
+  unfold Derived.route
+  simp only [DerivedSpec.routeChain, DerivedSpec.routeDefault, List.find?_cons, List.find?_nil, Derived.inCollection,
+    FairnessSpec.parametersForTransforms]
+  by_cases h1 : k ∈ spn
+  · simp [h1]
+  · by_cases h2 : k = "method"
+    · subst h2; simp [h1]
+    · simp [h1, h2]
+
+/-- with the default `sample_param_names`, `method` reaches the transform and `sample_weight` is sliced -/
+theorem derived_route_default :
+    Derived.route DerivedSpec.defaultSampleParamNames "method" = "transform" ∧
+    Derived.route DerivedSpec.defaultSampleParamNames "sample_weight" = "sample" ∧
+    Derived.route DerivedSpec.defaultSampleParamNames "pos_label" = "bound" := by
+  decide +kernel
+
+/-- "returns what the equivalent MetricFrame call returns": after the routing, the call IS the frame
+    construction + aggregate of `Fairness.derived` (the model of every generated `<metric>_<transform>`
+    function), for every transform, dataset and valid `method=` string; without `method=` it is the
+    default `between_groups`. -/
+theorem derived_finish_eq (d : Derived.Made) (s : String) (m : Method) (hm : Derived.parseMethodStr s = some m)
+    (nsf : Nat) (rows : List (Row Dat)) :
+    Derived.finish d (some (.str s)) nsf rows = (derived .meanpred d.transform m nsf rows).map Derived.ofRes ∧
+    Derived.finish d none nsf rows = (derived .meanpred d.transform .between nsf rows).map Derived.ofRes := by
+  have hrun : ∀ k, run .meanpred k m false nsf rows = run .meanpred k .between false nsf rows := by
+    intro k; simp [run, applyAgg]
+  unfold Derived.finish derived
+  cases FairnessSpec.dispatch.find? (fun e => e.1 == d.transform) with
+  | none => simp
+  | some disp =>
+    obtain ⟨t, mm, b⟩ := disp
+    cases hk : aggOfName mm with
+    | none => simp [hk]
+    | some k => cases b <;> simp [hk, hm, hrun]
+
+/-- an unknown `method=` string makes difference / ratio raise ValueError, while group_min / group_max
+    never look at it -/
+theorem derived_bad_method (d : Derived.Made) (s : String) (hs : Derived.parseMethodStr s = none)
+    (nsf : Nat) (rows : List (Row Dat)) :
+    (d.transform = "difference" ∨ d.transform = "ratio" → Derived.finish d (some (.str s)) nsf rows = some .valueError) ∧
+    (d.transform = "group_min" ∨ d.transform = "group_max" →
+      Derived.finish d (some (.str s)) nsf rows = Derived.finish d none nsf rows) := by
+  constructor
+  · rintro (h | h) <;> simp [Derived.finish, h, FairnessSpec.dispatch, aggOfName, hs]
+  · rintro (h | h) <;> simp [Derived.finish, h, FairnessSpec.dispatch, aggOfName]
+
+/-- a callable without `__name__` (a `functools.partial` object, a callable instance) passes the
+    constructor but every call raises AttributeError — although the equivalent `MetricFrame(metrics=
+    functools.partial(...))` call answers (finding F17) -/
+theorem derived_nameless_raises (mi : Derived.MetricInfo) (hn : mi.hasName = false) (d : Derived.Made)
+    (kw : List (String × Derived.KwVal)) (ys ps : List Rat) (cols : List (List Level)) :
+    Derived.call mi d kw ys ps cols = some .attributeError := by
+  simp [Derived.call, DerivedSpec.readsName, hn]
 
 /-- every variant listed in METRICS_SPEC is a transform `make_derived_metric` accepts and
     `_DerivedMetric.__call__` dispatches; the generated names are pairwise distinct -/
